@@ -30,3 +30,54 @@ def c11(work, tier, seed):
                                "websocket / legacy IN / legacy OUT connection) x data in flight (none, client->host, host->client, both) on both transports; observed within 3 s: EOF at the loopback host, EOF on every client "
                                "connection, proc.exit / relay.exit / unreg hooks, goroutine census of the protocol package, rdpgw_*_connections gauges", jobs=16)
     return out
+
+
+# ------------------------------------------------------------------ C09
+
+def conflict_kinds(work):
+    """Pairs of critical sections that the model without locks lets overlap (from its state graph)."""
+    dot = work.path("gw-nolock.dot")
+    r = tlc("Gateway", "MC_Gateway_nolockgen.cfg", work, workers=4, timeout=300, extra=["-dump", "dot", dot])
+    nodes, roots, edges = parse_dot(dot)
+    kinds = set()
+    for n, lab in nodes.items():
+        v = state_vars(lab)
+        rb = parse_tla_value(v["regBusy"])
+        if len(rb) >= 2:
+            pcs = parse_tla_value(v["pc"].replace(":>", "|->").replace("@@", ",").replace("(", "[").replace(")", "]")) if False else None
+            kinds.add("reg")
+        wr = v["writing"]
+        if wr.count("<<") >= 2 and ("loop" in wr and "relay" in wr):
+            kinds.add("write")
+    return r, sorted(kinds)
+
+
+def c09(work, tier, seed):
+    design = design_check("Gateway", "MC_Gateway.cfg", work, workers=8, timeout=600)
+    gen, kinds = conflict_kinds(work)
+    if set(kinds) != {"reg", "write"}:
+        raise HarnessError("the lock-free Gateway model no longer exhibits both conflict kinds: %s" % kinds)
+    scripts = []
+    reps = 2 if tier == "quick" else 12
+    for rep in range(reps):
+        for tr in ("ws", "legacy"):
+            for token in (True, False):
+                base = {"cfg": fs.base_cfg(token), "transport": tr, "tun": dict(fs.H_A, user="user1" if token else "nuser1"), "steps": fs.session(token)}
+                for var in ("relay-first-close", "relay-first-error", "loop-first"):
+                    scripts.append(dict(base, id="w%04d" % len(scripts), kind="wmutex", variant=var, origin="model:write/loop-relay"))
+                for var in ("reg-reg", "unreg-reg", "unreg-unreg"):
+                    scripts.append(dict(base, id="r%04d" % len(scripts), kind="regmutex", variant=var, origin="model:registry"))
+    nsoak = 4 if tier == "quick" else 24
+    for k in range(nsoak):
+        token = k % 2 == 0
+        cfgk = dict(fs.base_cfg(token), idle=[0, -1, 30, -5][k % 4] - (k // 4 if k % 2 else 0), noHooks=(k % 4 != 0))
+        scripts.append({"id": "k%04d" % len(scripts), "kind": "soak", "variant": "n%d" % ([8, 16, 32, 64][k % 4]), "n": [8, 16, 32, 64][k % 4], "rounds": 10 if tier == "quick" else 40,
+                        "cfg": cfgk, "transport": "ws", "tun": dict(fs.H_A, user="user1" if token else "nuser1"), "steps": fs.session(token), "origin": "soak"})
+    out, rep, res = fa.generic("C09", work, tier, seed, "conc", "ConcTrace", scripts, design,
+                               lambda v: "%s/%s/%s" % (v["guard"], v["a"].split(".")[0], v["b"] if v["guard"] in ("G_C09_NoDataRace",) else v["a"]),
+                               "Gateway.tla: handler / loop / relay goroutines of 2 tunnels with the registry and per-client writer as shared resources; mutual-exclusion and frame invariants hold with the locks and "
+                               "fail without them (design + necessity). Conformance on the race-detector build of the real binary: for each conflict pair the lock-free model exhibits (loop vs relay in Tunnel.Write; register / "
+                               "unregister pairs) a gated schedule holds one goroutine inside the section (hook gate) and provokes the other - TLC checks the recorded section events for overlap; plus concurrent soaks of 8..64 tunnels "
+                               "(both transports; data both ways, keep-alives, close / protocol error / reset while the host is sending); data-race reports and fatal errors on stderr are sensor events, frames seen by clients must be whole",
+                               jobs=6, gwbin="rdpgw-race")
+    return out
